@@ -355,7 +355,10 @@ def t06_sib(run, fx):
     # argument 1 = id_range_offset, argument 3 = id_delta
     bad = []
     for k, what in ((1, "idRangeOffset"), (3, "idDelta")):
-        if a[k] != c[k] or not a[k][1].startswith("call:next"):
+        # the element may be handed out by next() (a `for` loop) or by find() (a search written as an iterator adaptor): both yield the
+        # iterator's own items; what has to agree is the projection out of the item
+        yielding = ("call:next", "call:find")
+        if a[k][0] != c[k][0] or not a[k][1].startswith(yielding) or not c[k][1].startswith(yielding):
             bad.append("%s: map_glyph passes %s, mappings_fn passes %s" % (what, a[k], c[k]))
     if bad:
         run.fail(rule, "sibling:format4:args", "; ".join(bad), sibs["map_glyph"][0].loc(sibs["map_glyph"][1]))
